@@ -27,17 +27,25 @@ def record(H, result, exc=None, fid=False):
     if NoTracing is None:
         SEEN.add(repr(last))
         return
-    if not fid:
-        r = None
-    elif exc is None:
+    rv = None
+    if fid and exc is None:
         try:
-            r = repr(deep_realize(result))
+            rv = deep_realize(result)
         except Exception:
-            r = '?'
-    else:
-        r = 'EXC ' + type(exc).__name__
+            rv = '?'
     with NoTracing():
         ITER[0] += 1
-        s = repr(last)
+        if not fid:
+            r = None
+        elif exc is None:
+            r = repr(rv)
+        else:
+            r = 'EXC ' + type(exc).__name__
+        try:
+            s = repr(last)
+            if type(s) is not str:      # a symbolic str leaked into LAST
+                s = '<non-concrete summary>'
+        except Exception:
+            s = '<unprintable summary>'
         SEEN.add(s)
         LASTPAIR[0] = [r, s]
